@@ -102,6 +102,8 @@ func cmdCases(args []string) {
 		obs, err = cases.Routing(w, raws)
 	case "persist":
 		obs, err = cases.Persist(w, raws)
+	case "configclosure":
+		obs, err = cases.ConfigClosure(w, raws)
 	case "keycodec":
 		obs, err = cases.KeyCodec(w, raws)
 	case "proxyxform":
